@@ -15,6 +15,7 @@ package main
 // ("balances", initially 100) only take part in transfers.
 
 import (
+	"errors"
 	"context"
 	"fmt"
 	"sort"
@@ -43,6 +44,7 @@ type sop struct {
 	vals     []int64 // read
 	pos      int     // position in the change log (writes), -1 = not found
 	err      string
+	claimT   int64 // > 0: this increment was a claim (sorted find-one-and-update of the first counter below claimT)
 }
 
 type shistory struct {
@@ -80,6 +82,11 @@ func runSerial(seed uint64, g, n, k int) (*shistory, string) {
 		for x := 0; x < n; x++ {
 			o := &sop{g: a, pos: -1}
 			switch c := r.intn(10); {
+			case c < 1 || c < 2 && a%2 == 0:
+				// claim: increment the FIRST counter (in _id order) whose value is below a
+				// threshold — a sorted find-one-and-update whose filter depends on what
+				// concurrent writers change
+				o.kind, o.amt = "claim", pick(r, []int64{2, 3, 5, 8, 13, 1000})
 			case c < 5:
 				o.kind, o.i = "inc", r.intn(k/2)
 			case c < 8:
@@ -126,6 +133,21 @@ func runSerial(seed uint64, g, n, k int) (*shistory, string) {
 							o.err = err.Error()
 						}
 						o.old = d.V
+					case "claim":
+						var d accDoc
+						err := coll.FindOneAndUpdate(nil,
+							bson.D{{Key: "_id", Value: bson.D{{Key: "$lt", Value: int32(k / 2)}}}, {Key: "v", Value: bson.D{{Key: "$lt", Value: o.amt}}}},
+							bson.M{"$inc": bson.M{"v": int64(1)}, "$set": bson.M{"op": o.id}},
+							options.FindOneAndUpdate().SetSort(bson.D{{Key: "_id", Value: int32(1)}})).Decode(&d)
+						switch {
+						case errors.Is(err, lungo.ErrNoDocuments):
+							o.kind = "claimnone"
+						case err != nil:
+							o.err = err.Error()
+						default:
+							// from here on it is an increment of the counter it returned
+							o.kind, o.claimT, o.i, o.old = "inc", o.amt, int(d.ID), d.V
+						}
 					case "xfer":
 						sess, err := client.StartSession()
 						if err != nil {
@@ -228,7 +250,10 @@ func serialModelFree(h *shistory) string {
 		if o.err != "" {
 			return "CALL-ERROR " + o.kind + ": " + strings.ReplaceAll(o.err, " ", "_")
 		}
-		if o.kind != "read" && o.pos < 0 {
+		if o.kind == "inc" && o.claimT > 0 && (o.old >= o.claimT || o.i < 0 || o.i >= k/2) {
+			return fmt.Sprintf("CLAIM-FILTER-VIOLATED a claim below %d returned counter %d with value %d", o.claimT, o.i, o.old)
+		}
+		if o.kind != "read" && o.kind != "claimnone" && o.pos < 0 {
 			return fmt.Sprintf("MISSING-COMMIT %s op=%d", o.kind, o.id)
 		}
 	}
@@ -357,7 +382,9 @@ func (h *shistory) text() string {
 	}
 	fmt.Fprintf(&sb, "(k %d) (init %s) (writes", h.k, ints(h.init))
 	for _, w := range h.writes {
-		if w.kind == "inc" {
+		if w.kind == "inc" && w.claimT > 0 {
+			fmt.Fprintf(&sb, " (claim %d %d %d %d %d)", w.claimT, w.i, w.old, w.inv, w.ret)
+		} else if w.kind == "inc" {
 			fmt.Fprintf(&sb, " (inc %d 1 %d %d %d)", w.i, w.old, w.inv, w.ret)
 		} else {
 			fmt.Fprintf(&sb, " (xfer %d %d %d %d %d %d %d)", w.i, w.j, w.amt, w.vi, w.vj, w.inv, w.ret)
